@@ -6,13 +6,20 @@
 (* the non-faulting ones natively (32-bit static ELF built by GNU as/ld) and  *)
 (* T_X86Calib compares.                                                       *)
 EXTENDS X86SpaceLib
-CONSTANTS NK, SD
+CONSTANTS NK, SD, MODE       \* MODE "reg": register / immediate forms; "mem": memory operands, stack and string instructions
 UsesEsp(i) == \E j \in 1..Len(i.ops) : i.ops[j].k = "reg" /\ i.ops[j].c \in {"r16", "r32"} /\ i.ops[j].n = 4
-Calibratable(i) == /\ i.q
-                   /\ i.mn \notin StackMn \cup StringMn \cup FlowMn
-                   /\ \A j \in 1..Len(i.ops) : i.ops[j].k # "mem" \/ i.mn = "lea"
-                   /\ (i.mn = "lea" => i.ops[2].b # 4)
-                   /\ ~UsesEsp(i)
+Absolute(o) == o.k = "mem" /\ o.b < 0 /\ o.i < 0
+Calibratable(i) ==
+   IF MODE = "reg"
+   THEN /\ i.q
+        /\ i.mn \notin StackMn \cup StringMn \cup FlowMn
+        /\ \A j \in 1..Len(i.ops) : i.ops[j].k # "mem" \/ i.mn = "lea"
+        /\ (i.mn = "lea" => i.ops[2].b # 4)
+        /\ ~UsesEsp(i)
+   ELSE /\ i.mn \notin FlowMn /\ i.mn # "lea"
+        /\ (i.mn \in StackMn \cup StringMn \/ \E j \in 1..Len(i.ops) : i.ops[j].k = "mem")
+        /\ \A j \in 1..Len(i.ops) : ~Absolute(i.ops[j])
+        /\ (i.q \/ i.mn \in BitMn \cup StackMn \cup {"cmpxchg", "xadd", "xchg"})
 VARIABLES inst, txt, k, st, flt
 Init == /\ inst \in {x \in Instances : Calibratable(x)} /\ txt = Text(inst) /\ k \in 1..NK
         /\ st = GenState(inst, SD, k) /\ flt = Step([inst EXCEPT !.len = 2], st).fault
